@@ -71,6 +71,15 @@ ASSUMPTIONS = [
     '(stream r32)',
     'header bytes written = header fields read back (property C10); scipy.io savemat/loadmat round-trips '
     'float64 matrices exactly',
+    'forward-error theorems (mgh_forward_error, qform_forward_error) assume the storage rounding satisfies '
+    '|rnd x - x| <= u|x| (L.RelRnd); for numpy.float32 with u = 2^-24 on the normal range this is validated in '
+    'this run by the r32 stream; NumPy float64 dot products / sqrt / eigh / svd are not modelled (the model '
+    'evaluates them exactly) — their error is covered by the oracle tolerances only',
+    'header.default_x_flip is modelled for Analyze / SPM (three moments: construction, save, loading class); for '
+    'NIfTI it is generated only where a coded sform / qform makes it irrelevant (oracle only, no model line)',
+    'cross-class header conversion (AnalyzeHeader.from_header) is modelled for the affine-carrying fields only '
+    '(NHdr.convertN, NHdr.ofZooms, AHdr.ofZooms, clipZooms), tied by the exact-xclass / n2-f64 / general-sform-code '
+    'streams',
 ]
 RULE = ('exact stream: affines = (signed permutation or small integer matrix) x power-of-two zooms x dyadic '
         'translations, x 7 image classes x {no header, header with equal / allclose-near / far affine} x '
@@ -79,10 +88,11 @@ RULE = ('exact stream: affines = (signed permutation or small integer matrix) x 
         'order x np.allclose boundary variants (relative 2^-17 / 2^-16, absolute 2^-27 / 2^-26) x '
         'sform/qform codes 0..5 (qform-coded affines restricted to rotations whose quaternion is rational: '
         'identity, 180 deg about an axis, 120 deg about a diagonal, each with/without reflection) x .mat '
-        'contents {mat+M, M only, none}; general stream: random rotations (incl. exact and near 180 deg) x '
+        'contents {mat+M, M only, mat only, 4x4xN mat, none}; NIfTI-2 stream of affines float32 cannot hold; '
+        'general stream: random rotations (incl. exact and near 180 deg) x '
         'zooms 1e-6..1e6 x reflection x shear x translations up to 1e7, with header qform variants; component '
         'streams for float32 rounding, quat2mat, mat2quat, shape_zoom_affine. A case is non-trivial when the '
-        'affine is not the identity; distinct by (class, shape, affine, header spec, mat mode).')
+        'affine is not the identity; distinct by (class, shape, affine, header spec incl. source class and byte order, mat mode, x-flip configuration).')
 
 CLASSES = ['N1', 'N1P', 'N2', 'AN', 'S99', 'S2', 'MGH']
 NIFTI = ('N1', 'N1P', 'N2')
@@ -487,6 +497,8 @@ def impl_rt(case):
         out += ' delta=' + show_arr(h['delta']) + ' mdc=' + show_arr(h['Mdc']) + ' c=' + show_arr(h['Pxyz_c'])
     else:
         ex['z'] = np.array(h['pixdim'][1:4], dtype=np.float64)
+        if cls in SPM:
+            ex['origin'] = [int(v) for v in h['origin'][:3]]
         out += ' z=' + show_arr(h['pixdim'][1:4])
     return out
 
@@ -796,7 +808,25 @@ def oracle_rt(case, out):
         if abs(float(F(ex['z'][k]) - zs[k])) > ulp32(float(zs[k])) * 1.0000001:
             return classify(f'{cls}: reloaded zoom[{k}]={ex["z"][k]!r} is not the float32-rounded column norm '
                             f'{float(zs[k])!r}', 'analyze:zooms')
-    # loaded affine must be the documented fallback of those zooms (centre of the volume / SPM origin)
+    # loaded affine must be the documented fallback of the LOADED zooms: diag(z) with the x zoom negated iff the
+    # loading header's default_x_flip, voxel (n-1)/2 — or the SPM origin (1-based) when it is set and inside
+    # (-n, 2n) — at the world origin
+    zl = [F(v) for v in ex['z']]
+    if fload:
+        zl[0] = -zl[0]
+    dims = [int(shape[k]) if k < len(shape) else 1 for k in range(3)]
+    org = [Fr(n - 1, 2) for n in dims]
+    o = ex.get('origin')
+    if cls in SPM and o is not None and any(o) and all(o[k] > -dims[k] for k in range(3)) \
+            and all(o[k] < 2 * dims[k] for k in range(3)):
+        org = [Fr(int(v) - 1) for v in o]
+    for i in range(3):
+        for j in range(4):
+            exp = zl[i] if j == i else (-org[i] * zl[i] if j == 3 else Fr(0))
+            if F(L[i, j]) != exp:
+                return tag('analyze:fallback-affine',
+                           f'{cls} (default_x_flip {d.get("fl", "TTT")}): loaded affine[{i},{j}]={L[i, j]!r} is not the '
+                           f'fallback {float(exp)!r} of the loaded zooms {[float(v) for v in ex["z"]]} / origin {o}')
     return None
 
 
@@ -1538,7 +1568,7 @@ def spm_mat_consts():
         shifts, flips = {}, []
         for n in ast.walk(_class_fn(tree, 'Spm99AnalyzeImage', fname)):
             if isinstance(n, ast.Assign) and len(n.targets) == 1 and isinstance(n.targets[0], ast.Subscript) \
-                    and isinstance(n.targets[0].value, ast.Name) and ast.unparse(n.targets[0].slice) in (':3, 3', '(slice(None, 3, None), 3)'):
+                    and isinstance(n.targets[0].value, ast.Name) and ast.unparse(n.targets[0].slice).strip('()').replace(' ', '') == ':3,3':
                 try:
                     v = ast.literal_eval(n.value)
                 except ValueError:
